@@ -193,6 +193,7 @@ pub fn main(args: &[String]) -> i32 {
     let sizes = [20usize, 300, 3000, 4000, 4100, 7000, 8300];
     let edge_pct: u32 = o.num("edges", 25u32);
     let readcheck = o.num("readcheck", 0u32) == 1;
+    let trickle_ms: u64 = o.num("trickle", 0u64);
     let foldzero_pct: u32 = o.num("foldzero", 4u32);
     let wide: usize = o.num("wide", 0);
     let wide_every: usize = o.num("wideevery", 12usize).max(2);
@@ -224,6 +225,10 @@ pub fn main(args: &[String]) -> i32 {
     for session in 0..sessions {
     for step in 0..steps {
         crate::util::watchdog::beat(&format!("crash workload step {step}"));
+        if trickle_ms > 0 && step > 0 {
+            // one call per coordinator period: every write sits alone in its shard when the tick comes
+            std::thread::sleep(std::time::Duration::from_millis(trickle_ms));
+        }
         if wide > 0 && step % wide_every == wide_every / 2 {
             // one batch with many records (allocation journal longer than one 512-byte sector),
             // then an acknowledged flush
